@@ -18,7 +18,7 @@ RULE = ("All 682 supported commands (exhaustive) x 14 context templates (alone, 
         "and braced near-misses, unknown commands, every special sequence (^ _ >= <= newline \\pagenumber \\totalpage "
         "\\pagefield) and their overlaps, Hypothesis-generated mixed texts; placed in body cells (per-cell "
         "text_convert matrix; also full per-cell matrices and 2-3 row recycled patterns over 1-3 columns, paginated, next to a removed page_by column), title, subline, column header, footnote, source, page header and footer, each with "
-        "its default text_convert and with the override. Oracle: an independent reference converter written from "
+        "its default text_convert and with the override (a quarter of these: rendered once, text_convert switched in place, rendered again); body text also in a Categorical column. Oracle: an independent reference converter written from "
         "the statement and the frozen command table produces the expected RTF fragment; both it and the emitted "
         "run are reduced by the same independent reader to (text runs with super/sub state, line breaks, \\chpgn, "
         "NUMPAGES field, unknown control words) and compared. With conversion off the expected fragment is the "
@@ -185,9 +185,14 @@ def _case(draw):
                 "pattern": draw(st.sampled_from([None, None, 2, 3])) if n >= 4 else None}
     if where == "body":
         n = draw(st.integers(1, 12))
-        return {"where": "body", "texts": [draw(_text()) for _ in range(n)], "convert": [draw(st.booleans()) for _ in range(n)]}
+        return {"where": "body", "texts": [draw(_text()) for _ in range(n)], "convert": [draw(st.booleans()) for _ in range(n)],
+                "dtype": draw(st.sampled_from(["str", "str", "cat"]))}      # text may also sit in a Categorical column
     n = draw(st.integers(1, 3)) if where in ("title", "subline", "header", "page_header", "page_footer") else 1
-    return {"where": where, "texts": [draw(_text()) for _ in range(n)], "convert": draw(st.sampled_from([None, True, False]))}
+    case = {"where": where, "texts": [draw(_text()) for _ in range(n)], "convert": draw(st.sampled_from([None, True, False]))}
+    if draw(st.integers(0, 3)) == 0:
+        # history: the document is rendered, the component's text_convert is switched in place, it is rendered again
+        case["toggle"] = True
+    return case
 
 
 def strategy(tier):
@@ -217,7 +222,7 @@ def build_recipe(case):
         body["text_convert"] = flags
         return {"kind": "table", "page": {"nrow": case["nrow"]}, "sections": [{"df": {"cols": cols}, "body": body, "headers": "none"}]}
     if where == "body":
-        cols = [{"name": "@N0", "dtype": "str", "values": list(texts)}]
+        cols = [{"name": "@N0", "dtype": case.get("dtype", "str"), "values": list(texts)}]
         body = {"text_convert": {"t": list(conv)}}
         return {"kind": "table", "page": {"nrow": 100000}, "sections": [{"df": {"cols": cols}, "body": body, "headers": "none"}]}
     cols = [{"name": f"@N{j}", "dtype": "str", "values": ["r0"]} for j in range(n if where == "header" else 1)]
@@ -234,11 +239,44 @@ def build_recipe(case):
     return rec
 
 
+ARG = {"title": "rtf_title", "subline": "rtf_subline", "footnote": "rtf_footnote", "source": "rtf_source", "page_header": "rtf_page_header",
+       "page_footer": "rtf_page_footer", "header": "rtf_column_header"}
+
+
+def toggled(rec, where, conv):
+    """Render once, switch the component's text_convert in place, render again: (outcome of the second rendering, new flag)."""
+    from .. import recipe as R
+    from ..common import Outcome, innermost_frame
+    new = not (DEFAULT_CONVERT[where] if conv is None else conv)
+    out = Outcome()
+    try:
+        out.built = R.build(rec)
+    except Exception as e:
+        out.build_error = f"{type(e).__name__}: {str(e)[:200]}"
+        return out, new
+    try:
+        doc = out.built.doc
+        doc.rtf_encode()
+        comp = getattr(doc, ARG[where])
+        if where == "header":
+            comp = comp[0]
+        comp.text_convert = new
+        out.rtf = doc.rtf_encode()
+    except Exception as e:
+        out.encode_error = (type(e).__name__, innermost_frame(e), str(e)[:200])
+        return out, new
+    out.doc = read(out.rtf)
+    return out, new
+
+
 def check(case) -> Result:
     res = Result()
     where, texts, conv = case["where"], case["texts"], case["convert"]
     rec = build_recipe(case)
-    out = run_recipe(rec)
+    if case.get("toggle") and where not in ("body", "body_matrix"):
+        out, conv = toggled(rec, where, conv)
+    else:
+        out = run_recipe(rec)
     if out.build_error:
         res.harness_error = "recipe does not build: " + out.build_error
         return res
@@ -344,7 +382,7 @@ def check(case) -> Result:
         res.labels = ["paginated" if len(d.pages) > 1 else "one_page", "page_by_removed" if case.get("group") else "no_removed_column",
                       "recycled_pattern" if case.get("pattern") else "full_grid"]
     else:
-        res.labels = []
+        res.labels = ["switched_in_place_after_a_rendering"] if case.get("toggle") else []
     res.labels += ["where=" + where, "convert=" + ("mixed" if isinstance(conv, list) and len(set(conv)) > 1 else str(conv if not isinstance(conv, list) else conv[0]))]
     res.nontrivial = nontriv
     return res
@@ -370,6 +408,8 @@ def reductions(case):
     """Fewer texts (halves, then single texts), then shorter texts."""
     texts, conv = case["texts"], case["convert"]
     n = len(texts)
+    if case.get("toggle"):
+        yield {k: v for k, v in case.items() if k != "toggle"}
     if n > 1:
         for lo, hi in ((0, n // 2), (n // 2, n)):
             yield dict(case, texts=texts[lo:hi], convert=conv[lo:hi] if isinstance(conv, list) else conv)
